@@ -420,7 +420,9 @@ TIES = {
             # the raster builder stores through add_path only (its loop: C15)
             ('SrcRi.v', ['PyPrelude', 'PgmState', 'NpState', 'SrcUf', 'EquivUf', 'RiState', 'SrcRi', 'EquivRi'], 'EquivRi')],
     'C11': ('SrcUf.v', ['PyPrelude', 'PgmState', 'NpState', 'SrcUf', 'EquivUf'], 'EquivUf'),
-    'C14': ('SrcMk.v', ['PyPrelude', 'PgmState', 'MkState', 'SrcMk', 'EquivMk'], 'EquivMk'),
+    'C04': ('SrcLb.v', ['PyPrelude', 'PgmState', 'LbState', 'SrcLb', 'EquivLb'], 'EquivLb'),
+    'C14': [('SrcMk.v', ['PyPrelude', 'PgmState', 'MkState', 'SrcMk', 'EquivMk'], 'EquivMk'),
+            ('SrcLb.v', ['PyPrelude', 'PgmState', 'LbState', 'SrcLb', 'EquivLb'], 'EquivLb')],
     'C15': ('SrcRi.v', ['PyPrelude', 'PgmState', 'NpState', 'SrcUf', 'EquivUf', 'RiState', 'SrcRi', 'EquivRi'], 'EquivRi'),
     'C18': ('SrcSs.v', ['PyPrelude', 'PgmState', 'SsState', 'SrcSs', 'EquivSs'], 'EquivSs'),
     'C19': ('SrcPa.v', ['PyPrelude', 'PgmState', 'PaState', 'SrcPa', 'EquivPa'], 'EquivPa'),
